@@ -28,5 +28,6 @@ func controlsC11() []Control {
 		{Name: "dispatcher calls the handler only when none exists", Expect: "R8", Mutate: replaceIn("(*game).handleGameState", "if handler, exist := handlers[event]; exist {", "if handler, exist := handlers[event]; !exist {", 0)},
 		{Name: "pay routed by the round name instead of the event", Expect: "R5", Mutate: replaceIn("(*game).Pay", "pokerface.GameEventBySymbol[g.gs.Status.CurrentEvent]", "pokerface.GameEventBySymbol[g.gs.Status.Round]", 0)},
 		{Name: "hooks registered on the previous hand object", Expect: "R8", Mutate: replaceIn("(*tableEngine).startGame", "te.game = NewGame(te.gameBackend, opts)", "_ = NewGame(te.gameBackend, opts)", 0)},
+		{Name: "ante completion withdraws the allowance from the next state", Expect: "R9", Mutate: replaceIn("(*game).onAnteRequested", "// reset AllowedActions\n\t\tfor _, p := range gs.Players {", "// reset AllowedActions\n\t\tfor _, p := range gameState.Players {", 0)},
 	}
 }
